@@ -6,6 +6,7 @@ from pyvc.api import *
 from fixedint import UInt32
 from architecture_simulator.isa.riscv.rv32i_instructions import LUI, ADDI
 from contracts.rvcommon import havoc_state
+from architecture_simulator.isa.riscv.riscv_parser import RiscvParser
 
 M = "architecture_simulator.isa.riscv.riscv_parser"
 F = "RiscvParser._process_pseudo_instructions"
@@ -21,8 +22,9 @@ def run_group(rd, lui_imm, addi_imm):
 
 
 def split_contract(value_name, if_test, nth, value):
-    r = run_slice(M, F, if_test, {value_name: value}, ("lui_imm", "addi_imm"), nth=nth)
-    require("the slice holds the statements that compute both parts", r["__n_statements__"] >= 2)
+    # (`self` is a real parser object: if the arithmetic has been moved into a helper method, the slice calls it)
+    r = run_slice(M, F, if_test, {value_name: value, "self": RiscvParser()}, ("lui_imm", "addi_imm"), nth=nth)
+    require("the slice holds the statements that compute both parts", r["__n_statements__"] >= 1)
     rd = sym_int("rd", 1, 31)
     st, regs0 = run_group(rd, r["lui_imm"], r["addi_imm"])
     check("group_leaves_value_mod_2^32", int(st.register_file.registers[rd]) == value % 2 ** 32)
@@ -78,10 +80,10 @@ def element_address():
     lp.variable = Tok()
     lp.variable.name = "v"
     lp.variable.index = str(idx) if native() else IndexToken(idx)
-    slf = P()
+    slf = RiscvParser()          # (a real parser object: helper methods the statements may call are available)
     slf.variables = {"v": (base, size)}
     for test, nth in (("line_parsed.get('variable')", 0), ("mnemonic in self._s_type_mnemonics and line_parsed.get('variable')", 0)):
-        r = run_slice(M, F, test, {"self": slf, "line_parsed": lp}, ("array_index", "address"), nth=nth)
+        r = run_slice(M, F, test, {"self": slf, "line_parsed": lp}, ("address",), nth=nth)
         require("the slice holds the statements that compute the element address", r["__n_statements__"] >= 1)
         check("element_i_is_at_base_plus_size_times_i", r["address"] == base + size * idx)
 
